@@ -364,9 +364,14 @@ def _ref_address(s):
     if len(scripts) == 1:
         sc = scripts.pop()
         return sc, _script_kind(sc)
+    # a string with a segwit hrp and separator is judged as a segwit address even when all of its
+    # characters happen to lie in the Base58 alphabet as well (e.g. bc1pqqqq...)
+    sw_reason = te.segwit_check(s)[1]
+    if sw_reason not in ("format", "hrp"):
+        return None, sw_reason
     if te.b58decode(s) is not None:
         return None, ("bad-base58check" if te.b58check_decode(s) is None else "base58-not-an-address")
-    return None, te.segwit_check(s)[1]
+    return None, sw_reason
 
 
 def _post_addr_to_script(label, s, got_script, out, fa_bcrt):
@@ -439,7 +444,7 @@ def install():
 PARAMS = {
     #            random b58 payloads, subst positions, wif randoms, bech32 reps, template hashes, subst bases, sampled doubles
     "quick": {"b58_rand": 150, "b58_pos": 3, "wif_rand": 3, "grid_reps": 1, "tmpl": 6, "bases": 10, "doubles": 70000},
-    "thorough": {"b58_rand": 4000, "b58_pos": 4, "wif_rand": 40, "grid_reps": 8, "tmpl": 120, "bases": 60, "doubles": 1500000},
+    "thorough": {"b58_rand": 1500, "b58_pos": 3, "wif_rand": 40, "grid_reps": 8, "tmpl": 120, "bases": 60, "doubles": 1500000},
 }
 
 
